@@ -101,6 +101,21 @@ pub open spec fn set_status_log(cluster: bool, id: ActorId, name: Option<Seq<cha
     + (if status as u8 >= 5 && (p as u8) < 5 { exit_cleanup(cluster, id, name) } else { Seq::<Effect>::empty() })
     + (if status as u8 == 6 && (p as u8) < 6 { seq![Effect::NotifyStop] } else { Seq::<Effect>::empty() })
 }
+/// C06/C10/C11, independent of the order of the individual clean-up steps: the new status is published FIRST; the exit clean-up
+/// (name, pid, process groups) runs exactly once, on the transition into Stopping-or-later, and not otherwise; waiters are released
+/// exactly once, on the transition into Stopped, and only after everything else
+pub open spec fn set_status_shape(a: Seq<Effect>, b: Seq<Effect>, cluster: bool, named: bool, status: ActorStatus) -> bool {
+    let p = prev_seen(a, b);
+    let exits = status as u8 >= 5 && (p as u8) < 5;
+    let stops = status as u8 == 6 && (p as u8) < 6;
+    &&& ext(a, b) && added(a, b) >= 1 && (at(a, b, 0) matches Effect::StatusSet(s, _) && s == status)
+    &&& delta(a, b, Kind::StatusSet) == 1
+    &&& delta(a, b, Kind::PgLeaveAll) == (if exits { 1int } else { 0int }) && delta(a, b, Kind::PgDemonitorAll) == (if exits { 1int } else { 0int })
+    &&& delta(a, b, Kind::UnregisterName) == (if exits && named { 1int } else { 0int })
+    &&& delta(a, b, Kind::UnregisterPid) == (if exits && cluster { 1int } else { 0int }) && delta(a, b, Kind::DemonitorPid) == (if exits && cluster { 1int } else { 0int })
+    &&& delta(a, b, Kind::NotifyStop) == (if stops { 1int } else { 0int }) && (stops ==> b.last() == Effect::NotifyStop)
+    &&& delta(a, b, Kind::RegisterName) == 0 && delta(a, b, Kind::RegisterPid) == 0 && delta(a, b, Kind::NewProps) == 0
+}
 pub open spec fn prev_seen(old_s: Seq<Effect>, new_s: Seq<Effect>) -> ActorStatus {
     if old_s.len() < new_s.len() { match new_s[old_s.len() as int] { Effect::StatusSet(_, p) => p, _ => ActorStatus::Unstarted } } else { ActorStatus::Unstarted }
 }
